@@ -127,8 +127,17 @@ class SegList(object):
     def seg(self, s):
         st = sym.get_state()
         seg_facts(st, s)
-        o = self.vc.new("tdms_segment.TdmsSegment", position=_lift(z3.Function("SEGPOS", I, I)(zi(s))),
-                        num_chunks=_lift(NC(zi(s))), __s=s)
+        sz = zi(s)
+        ov = None
+        if self.vc.interp.truth(_lift(OV(sz))):
+            ov = {PATH: _lift(FIN(sz))}                  # Segment.wf(): override entry = values in the final chunk
+        pos = _lift(z3.Function("SEGPOS", I, I)(sz))
+        dpos = _lift(z3.Function("SEGDATA", I, I)(sz))
+        o = self.vc.new("tdms_segment.TdmsSegment", position=pos, num_chunks=_lift(NC(sz)), __s=s,
+                        final_chunk_lengths_override=ov, data_position=dpos,
+                        next_segment_pos=_lift(z3.Function("SEGNEXT", I, I)(sz)),
+                        toc_mask=_lift(z3.Function("SEGTOC", I, I)(sz)),
+                        segment_incomplete=_lift(z3.Function("SEGINC", I, B)(sz)))
         return o
 
 
@@ -202,7 +211,6 @@ def _setup(interp):
         real_end_index = end_index
         first_lo = base + chunk_offset * cs
         last_lo = base + (chunk_offset + num_chunks - 1) * cs
-        KF19 = [("KF-C19-empty-final-chunk", And(_lift(OV(zi(s))), _lift(FIN(zi(s))) == 0))]
         for (x, d, q, r) in list(st.divmods):
             divmod_unique(st, x, d, q, r, nc - 1, _lift(FIN(zi(s))), "/final-chunk-partial")
             divmod_unique(st, x, d, q, r, nc, 0, "/final-chunk-full")
@@ -211,17 +219,18 @@ def _setup(interp):
             vals = _lift(cum(zi(s))) - base
             # stepping stone (calc step): the code's final_chunk_size is the length of the last chunk
             st.check("step/final_chunk_size-is-length-of-last-chunk",
-                     And(vals == (nc - 1) * cs + fcs, 0 < fcs, fcs <= cs), kind="lemma", known=KF19)
+                     And(vals == (nc - 1) * cs + fcs, 0 <= fcs, fcs <= cs, Implies(fcs == 0, _lift(OV(zi(s))))),
+                     kind="lemma")
         # C19: every chunk fetched overlaps the request [offset, end_index); an empty request is read as
         # the position `offset` (the chunk containing it may be fetched)
         end_index = Max(end_index, offset + 1)
         st.check("c19/first-fetched-chunk-overlaps-request",
                  Implies(num_chunks > 0, And(first_lo < end_index, E_chunk(s, chunk_offset, cs) > offset)),
-                 kind="read-set", known=[("KF-C19-empty-final-chunk", And(_lift(OV(zi(s))), _lift(FIN(zi(s))) == 0))])
+                 kind="read-set")
         st.check("c19/last-fetched-chunk-overlaps-request",
                  Implies(num_chunks > 0, And(last_lo < end_index,
                                              E_chunk(s, chunk_offset + num_chunks - 1, cs) > offset)),
-                 kind="read-set", known=[("KF-C19-empty-final-chunk", And(_lift(OV(zi(s))), _lift(FIN(zi(s))) == 0))])
+                 kind="read-set")
         n = Max(num_chunks, 0)
         mulmono(st, chunk_offset + num_chunks, nc, cs, "/requested-chunks-within-segment")
         mulmono(st, chunk_offset + num_chunks, nc - 1, cs, "/requested-chunks-before-last")
@@ -453,3 +462,283 @@ def chunk_for_index(vc):
     vc.ensure("chunk-contains-the-index", And(w.lo <= index, index < w.hi))
     vc.ensure("reported-offset-is-the-chunk's-first-index", chunk_offset == w.lo)
     vc.ensure("c19/one-segment-touched", len(st.ghost.get("tag_reads", [])) == 1, kind="read-set")
+
+
+# =====================================================================================================================
+# Reader.inv is established by _build_index for ANY number of segments (loop invariant with quantified facts over a
+# symbolic-length array, pyvc.zarr), and _deduplicate_array / _array_equal return an elementwise-equal array.
+# =====================================================================================================================
+
+from pyvc.zarr import ZArr
+from pyvc import zarr as Z
+
+OBJPOS = z3.Function("OBJPOS", I, I)
+
+
+def wf_all(N):
+    """Segment.wf() for every segment index (quantified form of seg_facts without the cum equation)"""
+    j = z3.Int("wfj")
+    return z3.ForAll([j], z3.Implies(z3.And(0 <= j, j < zi(N)),
+                                     z3.And(NC(j) >= 0, NV(j) >= 0, OBJPOS(j) >= 0,
+                                            z3.Implies(OV(j), z3.And(NC(j) >= 1, FIN(j) >= 0, FIN(j) <= NV(j))))))
+
+
+class ObjIndex(object):
+    """segment.object_index: path -> position in ordered_objects (only the channel P is asked for)"""
+
+    def __init__(self, s, interp):
+        self.s = s
+        self.interp = interp
+
+    def get(self, path, default=None):
+        if path != PATH:
+            raise sym.Unsupported("object_index lookup of another path")
+        if self.interp.truth(_lift(HASOBJ(zi(self.s)))):
+            return _lift(OBJPOS(zi(self.s)))
+        return default
+
+
+class OrderedObjs(object):
+    def __init__(self, s, interp):
+        self.s = s
+        self.interp = interp
+
+
+def _ordered_getitem(interp, oo, k):
+    st = sym.get_state()
+    s = zi(oo.s)
+    st.check("safe/ordered_objects-index-is-the-indexed-position", And(_lift(HASOBJ(s)), k == _lift(OBJPOS(s))), kind="safe")
+    o = Obj(interp.get("tdms_segment.TdmsSegmentObject"))
+    o._f.update(path=PATH, has_data=_lift(HD(s)), number_values=_lift(NV(s)))
+    object.__setattr__(o, "_partial", True)
+    return o
+
+
+def _seg_with_objects(sl, s):
+    o = SegList.seg(sl, s)
+    o._f["object_index"] = ObjIndex(s, sl.vc.interp)
+    o._f["ordered_objects"] = OrderedObjs(s, sl.vc.interp)
+    return o
+
+
+class SegListAll(SegList):
+    def seg(self, s):
+        return _seg_with_objects(self, s)
+
+    def as_symseq(self):
+        return SymSeq(self.N, lambda k: self.seg(k), "segments")
+
+
+def _setup_build_index(interp):
+    Z.install(interp)
+    interp.models[("getitem", SegListAll)] = _seglist_getitem
+    interp.models[("getitem", OrderedObjs)] = _ordered_getitem
+    np_proxy = interp.external["numpy"]
+    if not getattr(np_proxy, "_zarr_patched", False):
+        base_zeros = np_proxy._table["zeros"]
+        base_cumsum = np_proxy._table["cumsum"]
+
+        def zeros(n, dtype=float, *a, **k):
+            st = sym.get_state()
+            if st is not None and st.ghost.get("zarr_mode") and sym.is_sym(n):
+                from pyvc.models import trusted
+                trusted("numpy: np.zeros(n, int64) is an array of n zeros")
+                if interp.truth(n < 0):
+                    raise ProgExc(ValueError, "negative dimensions")
+                return ZArr.zeros(n, dtype)
+            return base_zeros(n, dtype, *a, **k)
+
+        def cumsum(a, *r, **k):
+            if isinstance(a, ZArr):
+                return Z.m_cumsum(interp, a)
+            return base_cumsum(a, *r, **k)
+        np_proxy._table["zeros"] = zeros
+        np_proxy._table["cumsum"] = cumsum
+        np_proxy._zarr_patched = True
+
+    def dedup(interp_, f, args, kwargs):
+        """contract of _deduplicate_array (harness deduplicate_array): the result is xs or an array equal to it"""
+        xs = args[0]
+        st = sym.get_state()
+        r = ZArr.fresh(xs.n, xs.dtype_, "dedup")
+        j = z3.Int(sym.fresh_name("j"))
+        st.add_fact(z3.ForAll([j], z3.Implies(z3.And(0 <= j, j < zi(xs.n)), r.sel(j) == xs.sel(j))))
+        return r
+    interp.contracts_at_calls["nptdms.reader:_deduplicate_array"] = dedup
+
+    def inv(env, k, st):
+        v = env.vars
+        A = v["segment_num_values"]
+        first, last = v["first_segment"], v["last_segment"]
+        N = v["num_segments"]
+        j = z3.Int(sym.fresh_name("j"))
+        kz, fz, lz, Nz = zi(k), zi(first), zi(last), zi(N)
+        vj = vals_term(j)
+        return [
+            ("array-is-the-segment-array", isinstance(A, ZArr) and SymBool(zi(A.n) == Nz)),
+            ("counts-of-visited-segments-are-stored",
+             SymBool(z3.ForAll([j], z3.Implies(z3.And(0 <= j, j < kz), A.sel(j) == vj)))),
+            ("unvisited-entries-are-zero",
+             SymBool(z3.ForAll([j], z3.Implies(z3.And(kz <= j, j < Nz), A.sel(j) == 0)))),
+            ("no-data-seen-yet", SymBool(z3.Implies(fz == -1, z3.And(
+                lz == -1, z3.ForAll([j], z3.Implies(z3.And(0 <= j, j < kz), vj == 0)))))),
+            ("first-and-last-segment-with-values", SymBool(z3.Implies(fz != -1, z3.And(
+                0 <= fz, fz <= lz, lz < kz, vals_term(fz) > 0, vals_term(lz) > 0,
+                z3.ForAll([j], z3.Implies(z3.And(0 <= j, j < fz), vj == 0)),
+                z3.ForAll([j], z3.Implies(z3.And(lz < j, j < kz), vj == 0)))))),
+        ]
+    interp.loop_specs[("nptdms.reader:TdmsReader._build_index", 0)] = LoopSpec(
+        inv, havoc={"segment_num_values": lambda st, env: ZArr.fresh(env.vars["num_segments"], "int64", "segnum"),
+                    "first_segment": "int", "last_segment": "int",
+                    "__locals__": ("obj_index", "segment_obj", "num_values", "i", "segment")},
+        name="segments")
+
+
+@harness("build_index_all_segments", ["reader.TdmsReader._build_index", "reader._number_of_segment_values"],
+         ["C04", "C05", "C06", "C03", "C19"], setup=_setup_build_index, timeout_ms=60000,
+         note="Reader.inv for ANY number of segments: loop invariant over the per-segment count array (quantified "
+              "facts), cumsum and slice by their NumPy contracts; _deduplicate_array by its contract")
+def _build_index_all(vc):
+    st = vc.st
+    st.ghost["zarr_mode"] = True
+    N = vc.int("N", lo=0)
+    st.add_fact(wf_all(N))
+    from pyvc.models import SFile
+    rd = vc.new("reader.TdmsReader", _file=SFile("data"), _index_file=None, _file_path=None, _index_file_path=None,
+                _segments=SegListAll(N, vc), object_metadata={}, _segment_channel_offsets={},
+                _prev_segment_objects={}, tdms_version=4712, _data_file_size=vc.int("S", lo=0))
+    vc.cover("preconditions-satisfiable(3 segments, data in the middle one)",
+             SymBool(z3.And(zi(N) == 3, vals_term(z3.IntVal(1)) > 0, vals_term(z3.IntVal(0)) == 0)))
+    out = vc.call_method(rd, "_build_index", PATH)
+    vc.ensure("no-exception", out.kind == "ret")
+    if out.kind != "ret":
+        return
+    ent = rd._segment_channel_offsets.get(PATH)
+    vc.ensure("index-entry-stored", isinstance(ent, tuple) and len(ent) == 2 and isinstance(ent[1], ZArr))
+    (first, offs) = ent
+    M = offs.n
+    vc.cover("exit-state-reachable(two index entries, or none)", Or(And(M == 2, first == 1), And(M == 0, N == 2)))
+    j = vc.int("j")                     # an arbitrary index: each obligation below holds for all j
+    vj = _lift(vals_term(zi(j)))
+    vc.ensure("first-segment-in-range", And(0 <= first, first <= N))
+    vc.ensure("index-ends-within-the-segments", And(M >= 0, first + M <= N))
+    vc.ensure("no-values-before-the-first-indexed-segment", Implies(And(0 <= j, j < first), vj == 0))
+    vc.ensure("no-values-after-the-last-indexed-segment", Implies(And(first + M <= j, j < N), vj == 0))
+    vc.ensure("first-and-last-indexed-segments-have-values",
+              Implies(M > 0, And(_lift(vals_term(zi(first))) > 0, _lift(vals_term(zi(first + M - 1))) > 0)))
+    vc.ensure("empty-index-iff-first-is-the-segment-count", And(Implies(M == 0, first == N), Implies(first == N, M == 0)))
+    prev = Ite(j > 0, offs.at(j - 1), 0)
+    vc.ensure("offsets-are-the-running-totals(OFFS[j]=OFFS[j-1]+vals(F+j))",
+              Implies(And(0 <= j, j < M), offs.at(j) == prev + _lift(vals_term(zi(first + j)))))
+    vc.ensure("nothing-read-from-the-file", len(rd._file.reads) == 0)
+
+
+def _setup_zarr_only(interp):
+    _setup_build_index(interp)
+    interp.contracts_at_calls.pop("nptdms.reader:_deduplicate_array", None)
+    interp.loop_specs.pop(("nptdms.reader:TdmsReader._build_index", 0), None)
+
+
+@harness("array_equal", "reader._array_equal", ["C04", "C05"], setup=_setup_zarr_only, timeout_ms=60000,
+         note="for arrays of any length: True iff same length and equal at every index (chunked comparison loop "
+              "cut by the invariant 'equal below the current offset')")
+def _array_equal_h(vc):
+    st = vc.st
+    na, nb = vc.int("na", lo=0), vc.int("nb", lo=0)
+    a, b = ZArr.fresh(na, "int64", "a"), ZArr.fresh(nb, "int64", "b")
+
+    def inv(env, k, st_):
+        j = z3.Int(sym.fresh_name("j"))
+        return [("equal-below-the-current-offset",
+                 SymBool(z3.ForAll([j], z3.Implies(z3.And(0 <= j, j < zi(k) * 100, j < zi(na)), a.sel(j) == b.sel(j)))))]
+    vc.interp.loop_specs[("nptdms.reader:_array_equal", 0)] = LoopSpec(
+        inv, havoc={"__locals__": ("offset", "i")}, name="chunks")
+    out = vc.call("reader._array_equal", a, b)
+    vc.ensure("no-exception", out.kind == "ret")
+    if out.kind != "ret":
+        return
+    r = out.value
+    j = vc.int("j")
+    w = z3.Int("w")
+    if vc.interp.truth(r if isinstance(r, SymBool) else bool(r)):
+        vc.ensure("True-means-same-length", na == nb)
+        vc.ensure("True-means-equal-at-every-index", Implies(And(0 <= j, j < na), a.at(j) == b.at(j)))
+    else:
+        vc.ensure("False-means-different-length-or-a-differing-index",
+                  SymBool(z3.Or(zi(na) != zi(nb), z3.Exists([w], z3.And(0 <= w, w < zi(na), a.sel(w) != b.sel(w))))))
+
+
+@harness("deduplicate_array", "reader._deduplicate_array", ["C04", "C05"], setup=_setup_zarr_only,
+         note="for any number of candidates: the result is the new array or a candidate equal to it at every index")
+def _dedup_h(vc):
+    st = vc.st
+    n = vc.int("n", lo=0)
+    K = vc.int("K", lo=0)
+    xs = ZArr.fresh(n, "int64", "xs")
+    CAND = z3.Function("CAND", I, I, I)
+    CLEN = z3.Function("CLEN", I, I)
+    made = {}
+
+    def cand(k):
+        kz = zi(k)
+        st.add_fact(CLEN(kz) >= 0)
+        return ZArr(lambda i, kz=kz: CAND(kz, zi(i)), _lift(CLEN(kz)), "int64", "cand")
+
+    def array_equal(interp_, f, args, kwargs):
+        """contract of _array_equal (harness array_equal)"""
+        a, b = args[0], args[1]
+        t = st_bool = z3.Bool(sym.fresh_name("eq"))
+        jj = z3.Int(sym.fresh_name("j"))
+        sym.get_state().add_fact(t == z3.And(zi(a.n) == zi(b.n),
+                                             z3.ForAll([jj], z3.Implies(z3.And(0 <= jj, jj < zi(a.n)),
+                                                                        a.sel(jj) == b.sel(jj)))))
+        return SymBool(t)
+    vc.interp.contracts_at_calls["nptdms.reader:_array_equal"] = array_equal
+    vc.interp.loop_specs[("nptdms.reader:_deduplicate_array", 0)] = LoopSpec(
+        lambda env, k, st_: [], havoc={"__locals__": ("candidate",)}, name="candidates")
+    out = vc.call("reader._deduplicate_array", xs, SymSeq(K, cand, "candidates"))
+    vc.ensure("no-exception", out.kind == "ret")
+    if out.kind != "ret":
+        return
+    r = out.value
+    j = vc.int("j")
+    vc.ensure("result-is-an-array", isinstance(r, ZArr))
+    vc.ensure("same-length", r.n == n)
+    vc.ensure("equal-at-every-index", Implies(And(0 <= j, j < n), r.at(j) == xs.at(j)))
+
+
+@harness("reader_inv_link", "reader.TdmsReader._build_index", ["C04", "C19", "C05"], timeout_ms=60000,
+         note="lemma: an index with the postcondition of harness build_index_all_segments is exactly what harness "
+              "read_window assumes (Reader.inv): the prefix-sum function cum read off the index satisfies "
+              "cum(s) = cum(s-1) + vals(s) for every segment s, cum(F-1) = 0 and OFFS[j] = cum(F+j)")
+def _reader_inv_link(vc):
+    st = vc.st
+    N, F, M = vc.int("N", lo=0), vc.int("F", lo=0), vc.int("M", lo=0)
+    st.add_fact(wf_all(N))
+    OFFS = ZArr.fresh(M, "int64", "OFFS")
+    j = z3.Int("jq")
+    Nz, Fz, Mz = zi(N), zi(F), zi(M)
+    # postcondition of _build_index (harness build_index_all_segments), for all j
+    st.add_fact(z3.And(Fz <= Nz, Fz + Mz <= Nz, (Mz == 0) == (Fz == Nz)))
+    st.add_fact(z3.ForAll([j], z3.Implies(z3.And(0 <= j, j < Fz), vals_term(j) == 0)))
+    st.add_fact(z3.ForAll([j], z3.Implies(z3.And(Fz + Mz <= j, j < Nz), vals_term(j) == 0)))
+    st.add_fact(z3.Implies(Mz > 0, z3.And(vals_term(Fz) > 0, vals_term(Fz + Mz - 1) > 0)))
+    st.add_fact(z3.ForAll([j], z3.Implies(z3.And(0 <= j, j < Mz),
+                                          OFFS.sel(j) == z3.If(j > 0, OFFS.sel(j - 1), 0) + vals_term(Fz + j))))
+
+    def cumdef(s):
+        s = zi(s)
+        return z3.If(s < Fz, 0, z3.If(s < Fz + Mz, OFFS.sel(s - Fz), z3.If(Mz > 0, OFFS.sel(Mz - 1), 0)))
+    s = vc.int("s")
+    sz = zi(s)
+    vc.ensure("cum-recurrence-at-every-segment", Implies(And(0 <= s, s < N),
+                                                         SymBool(cumdef(sz) == cumdef(sz - 1) + vals_term(sz))))
+    vc.ensure("cum-is-zero-before-the-first-indexed-segment", SymBool(cumdef(Fz - 1) == 0))
+    vc.ensure("index-entries-are-cum", Implies(And(0 <= s, s < M), SymBool(OFFS.sel(sz) == cumdef(Fz + sz))))
+    vc.ensure("first-and-last-indexed-segments-have-values(as assumed)",
+              SymBool(z3.Implies(Mz > 0, z3.And(vals_term(Fz) > 0, vals_term(Fz + Mz - 1) > 0))))
+    vc.ensure("shape(as assumed): M=0,F=N or M>0,F+M<=N",
+              SymBool(z3.Or(z3.And(Mz == 0, Fz == Nz), z3.And(Mz > 0, Fz + Mz <= Nz))))
+    # non-vacuity: the assumed postcondition has a model with data in an inner range of segments
+    vc.cover("an-index-with-entries-exists", And(M == 2, F == 1, N == 4))
+    vc.cover("an-empty-index-exists", And(M == 0, N == 2))
